@@ -228,6 +228,9 @@ package token
 //@   requires nonnil: state != nil
 //@   requires locked: held(state.mu)
 //@   modifies nothing
+//@   -- C16: the version tag is made of the file size and the modification time IN NANOSECONDS (versions are told apart by them)
+//@   assert at call Sprintf size-and-nanos: len(arg_a) == 2 && holds(arg_a[0], state.fileSize) && holds(arg_a[1], callresult("UnixNano", 1))
+//@   assert at call UnixNano of-mtime: arg_t == state.modTime
 //@
 //@ func (*state).load
 //@   safe
